@@ -18,13 +18,13 @@ def TDef.ns : TDef → List String
 
 /-- `JniBaseType.class_descriptor` = `'/'.join(decl.java.package.split('.') + [self.name])` -/
 def jniClassDescriptor (jc : JavaCfg) (c : JniCfg) (d : TDef) : String :=
-  "/".intercalate (javaPackageL jc d.ns ++ [jniName c d])
+  joinS "/" (javaPackageL jc d.ns ++ [jniName c d])
 
 /-- `JniBaseType.jni_prefix` input: the segments -/
 def jniPrefixSegments (jc : JavaCfg) (c : JniCfg) (d : TDef) : List String := javaPackageL jc d.ns ++ [jniName c d]
 
 /-- `jni_prefix(segments)` -/
-def jniPrefix (segments : List String) : String := "_".intercalate ("Java" :: segments.map mangle)
+def jniPrefix (segments : List String) : String := joinS "_" ("Java" :: segments.map mangle)
 
 /-- the descriptor of a *reference* to a user type: flags are passed as `java.util.EnumSet`, everything
     else (records, interfaces, enums, error domains, function types) as its own class -/
@@ -47,7 +47,7 @@ def jniRefSig (jc : JavaCfg) (c : JniCfg) (t : RType) : String :=
 
 /-- module-level `type_signature(parameters, return_type_ref, asynchronous)` -/
 def jniMethodSig (jc : JavaCfg) (c : JniCfg) (params : List RType) (ret : Option RType) (async : Bool) : String :=
-  "(" ++ String.join (params.map (jniRefSig jc c)) ++ ")" ++
+  "(" ++ concatS (params.map (jniRefSig jc c)) ++ ")" ++
     (if async then "Ljava/util/concurrent/CompletableFuture;" else match ret with
       | none => "V"
       | some r => jniRefSig jc c r)
@@ -109,7 +109,7 @@ def fieldLookups (jc : JavaCfg) (c : JniCfg) (cls : String) (fs : List FieldD) :
   fs.map (fun f => { cls := cls, kind := "field", name := convert jc.fieldStyle f.name, sig := jniRefSig jc c f.ty })
 
 def ctorSig (jc : JavaCfg) (c : JniCfg) (fs : List FieldD) (extra : String) : String :=
-  "(" ++ String.join (fs.map (fun f => jniRefSig jc c f.ty)) ++ extra ++ ")V"
+  "(" ++ concatS (fs.map (fun f => jniRefSig jc c f.ty)) ++ extra ++ ")V"
 
 def declTDef : Decl → TDef
   | .function u anonymous params ret throwing => .func u anonymous throwing.isNone (params.map (·.ty)) ret
@@ -173,8 +173,10 @@ def jniExports (jc : JavaCfg) (c : JniCfg) (d : Decl) : List Export :=
 /-! ## classes and members the generated Java declares -/
 
 structure JMember where
-  /-- binary name of the declaring class -/
-  cls : String
+  /-- package components of the declaring class -/
+  pkg : List String
+  /-- binary simple name of the declaring class (`Outer$Inner`) -/
+  cname : String
   /-- `field`, `method`, `ctor` -/
   kind : String
   name : String
@@ -185,63 +187,104 @@ structure JMember where
   ret : Option JType
 deriving Repr, Inhabited
 
+/-- binary name `a/b/C$D` -/
+def JMember.cls (m : JMember) : String := joinS "/" (m.pkg ++ [m.cname])
+
 def JMember.desc (m : JMember) : String :=
   if m.kind == "field" then descO m.ret else methodDesc m.params m.ret
+
+/-- the symbol the JVM binds a native method to -/
+def JMember.symbol (m : JMember) : String := nativeSymbolL (m.pkg ++ [m.cname]) m.name
 
 def jlong : JType := .prim "long"
 def jString : JType := .cls ["java", "lang"] "String" []
 
-def proxyMembers (cls : String) : List JMember :=
-  [{ cls := cls, kind := "field", name := "nativeRef", isStatic := false, isNative := false, params := [], ret := some jlong },
-   { cls := cls, kind := "ctor", name := "<init>", isStatic := false, isNative := false, params := [jlong], ret := none },
-   { cls := cls ++ "$CleanupTask", kind := "method", name := "nativeDestroy", isStatic := false, isNative := true, params := [jlong], ret := none }]
+def proxyMembers (pkg : List String) (cname : String) : List JMember :=
+  [{ pkg := pkg, cname := cname, kind := "field", name := "nativeRef", isStatic := false, isNative := false, params := [], ret := some jlong },
+   { pkg := pkg, cname := cname, kind := "ctor", name := "<init>", isStatic := false, isNative := false, params := [jlong], ret := none },
+   { pkg := pkg, cname := cname ++ "$CleanupTask", kind := "method", name := "nativeDestroy", isStatic := false, isNative := true, params := [jlong], ret := none }]
 
-def fieldMembers (jc : JavaCfg) (cls : String) (fs : List FieldD) : List JMember :=
-  fs.map (fun f => { cls := cls, kind := "field", name := convert jc.fieldStyle f.name, isStatic := false, isNative := false,
-                     params := [], ret := some (javaJT jc f.ty false) })
+def fieldMember (jc : JavaCfg) (pkg : List String) (cname : String) (f : FieldD) : JMember :=
+  { pkg := pkg, cname := cname, kind := "field", name := convert jc.fieldStyle f.name, isStatic := false, isNative := false,
+    params := [], ret := some (javaJT jc f.ty false) }
+
+def fieldMembers (jc : JavaCfg) (pkg : List String) (cname : String) (fs : List FieldD) : List JMember :=
+  fs.map (fieldMember jc pkg cname)
 
 def paramJTs (jc : JavaCfg) (fs : List FieldD) : List JType := fs.map (fun f => javaJT jc f.ty false)
 
-/-- binary name of the class the Java template of a declaration writes -/
-def javaClassName (jc : JavaCfg) (d : Decl) : String :=
-  let u := d.info
-  let anonymous := match d with | .function _ a _ _ _ => a | _ => false
-  "/".intercalate (javaPackageL jc u.ns ++ [javaDeclName jc u anonymous])
+def declAnonymous : Decl → Bool
+  | .function _ a _ _ _ => a
+  | _ => false
+
+/-- package and simple name of the class the Java template of a declaration writes -/
+def javaClassPkg (jc : JavaCfg) (d : Decl) : List String := javaPackageL jc d.info.ns
+def javaClassSimple (jc : JavaCfg) (d : Decl) : String := javaDeclName jc d.info (declAnonymous d)
+
+/-- binary name of that class -/
+def javaClassName (jc : JavaCfg) (d : Decl) : String := joinS "/" (javaClassPkg jc d ++ [javaClassSimple jc d])
+
+def methodMember (jc : JavaCfg) (pkg : List String) (cname : String) (m : MethodD) : JMember :=
+  { pkg := pkg, cname := cname, kind := "method", name := convert jc.methodStyle m.name, isStatic := m.isStatic, isNative := false,
+    params := paramJTs jc m.params, ret := javaRetJT jc m.ret m.isAsync }
+
+/-- the native method `CppProxy` declares for an interface method -/
+def nativeMember (jc : JavaCfg) (pkg : List String) (cname : String) (m : MethodD) : JMember :=
+  { pkg := pkg, cname := cname, kind := "method", name := javaNativeName jc m, isStatic := m.isStatic, isNative := true,
+    params := (if m.isStatic then [] else [jlong]) ++ paramJTs jc m.params, ret := javaRetJT jc m.ret m.isAsync }
+
+def codeMembers (jc : JavaCfg) (pkg : List String) (cname : String) (k : CodeD) : List JMember :=
+  let kc := cname ++ "$" ++ convert jc.tyStyle k.name
+  [{ pkg := pkg, cname := kc, kind := "ctor", name := "<init>", isStatic := false, isNative := false, params := paramJTs jc k.params, ret := none },
+   { pkg := pkg, cname := kc, kind := "ctor", name := "<init>", isStatic := false, isNative := false, params := paramJTs jc k.params ++ [jString], ret := none }] ++
+  fieldMembers jc pkg kc k.params ++
+  [{ pkg := ["java", "lang"], cname := "Throwable", kind := "method", name := "getMessage", isStatic := false, isNative := false, params := [], ret := some jString }]
 
 def javaMembers (jc : JavaCfg) (d : Decl) : List JMember :=
-  let cls := javaClassName jc d
+  let pkg := javaClassPkg jc d
+  let cn := javaClassSimple jc d
   match d with
   | .enum _ _ | .flags _ _ =>
-    [{ cls := cls, kind := "method", name := "values", isStatic := true, isNative := false, params := [],
-       ret := some (.arr (.cls ((cls.splitOn "/").dropLast) ((cls.splitOn "/").getLastD "") [])) },
-     { cls := "java/lang/Enum", kind := "method", name := "ordinal", isStatic := false, isNative := false, params := [], ret := some (.prim "int") }]
+    [{ pkg := pkg, cname := cn, kind := "method", name := "values", isStatic := true, isNative := false, params := [], ret := some (.arr (.cls pkg cn [])) },
+     { pkg := ["java", "lang"], cname := "Enum", kind := "method", name := "ordinal", isStatic := false, isNative := false, params := [], ret := some (.prim "int") }]
   | .record _ fields _ _ =>
-    { cls := cls, kind := "ctor", name := "<init>", isStatic := false, isNative := false, params := paramJTs jc fields, ret := none } ::
-    fieldMembers jc cls fields
+    { pkg := pkg, cname := cn, kind := "ctor", name := "<init>", isStatic := false, isNative := false, params := paramJTs jc fields, ret := none } ::
+    fieldMembers jc pkg cn fields
   | .interface u methods =>
-    methods.map (fun m =>
-      { cls := cls, kind := "method", name := convert jc.methodStyle m.name, isStatic := m.isStatic, isNative := false,
-        params := paramJTs jc m.params, ret := javaRetJT jc m.ret m.isAsync }) ++
-    (if u.targets.contains "cpp" then
-      proxyMembers (cls ++ "$CppProxy") ++
-      methods.map (fun m =>
-        { cls := cls ++ "$CppProxy", kind := "method", name := javaNativeName jc m, isStatic := m.isStatic, isNative := true,
-          params := (if m.isStatic then [] else [jlong]) ++ paramJTs jc m.params, ret := javaRetJT jc m.ret m.isAsync })
-     else [])
+    methods.map (methodMember jc pkg cn) ++
+    (if u.targets.contains "cpp" then proxyMembers pkg (cn ++ "$CppProxy") ++ methods.map (nativeMember jc pkg (cn ++ "$CppProxy")) else [])
   | .function u _ params ret _ =>
-    { cls := cls, kind := "method", name := "invoke", isStatic := false, isNative := false, params := paramJTs jc params, ret := javaRetJT jc ret false } ::
+    { pkg := pkg, cname := cn, kind := "method", name := "invoke", isStatic := false, isNative := false, params := paramJTs jc params, ret := javaRetJT jc ret false } ::
     (if u.targets.contains "cpp" then
-      proxyMembers (cls ++ "CppProxy") ++
-      [{ cls := cls ++ "CppProxy", kind := "method", name := "nativeInvoke", isStatic := false, isNative := true,
+      proxyMembers pkg (cn ++ "CppProxy") ++
+      [{ pkg := pkg, cname := cn ++ "CppProxy", kind := "method", name := "nativeInvoke", isStatic := false, isNative := true,
          params := jlong :: paramJTs jc params, ret := javaRetJT jc ret false }]
      else [])
-  | .error _ codes =>
-    codes.flatMap (fun k =>
-      let kc := cls ++ "$" ++ convert jc.tyStyle k.name
-      [{ cls := kc, kind := "ctor", name := "<init>", isStatic := false, isNative := false, params := paramJTs jc k.params, ret := none },
-       { cls := kc, kind := "ctor", name := "<init>", isStatic := false, isNative := false, params := paramJTs jc k.params ++ [jString], ret := none }] ++
-      fieldMembers jc kc k.params ++
-      [{ cls := "java/lang/Throwable", kind := "method", name := "getMessage", isStatic := false, isNative := false, params := [], ret := some jString }])
+  | .error _ codes => codes.flatMap (codeMembers jc pkg cn)
+
+/-- the classes the generated Java of a declaration declares (binary names) -/
+def javaClasses (jc : JavaCfg) (d : Decl) : List String :=
+  let cls := javaClassName jc d
+  match d with
+  | .enum _ _ | .flags _ _ | .record _ _ _ _ => [cls]
+  | .interface u _ => cls :: (if u.targets.contains "cpp" then [cls ++ "$CppProxy", cls ++ "$CppProxy$CleanupTask"] else [])
+  | .function u _ _ _ _ => cls :: (if u.targets.contains "cpp" then [cls ++ "CppProxy", cls ++ "CppProxy$CleanupTask"] else [])
+  | .error _ codes => cls :: codes.map (fun k => cls ++ "$" ++ convert jc.tyStyle k.name)
+
+/-! ## what "the lookup resolves" means on the model's Java side -/
+
+/-- a looked-up member is found in the class itself or (methods only) inherited from `java.lang.Enum` / `java.lang.Throwable` -/
+def memberMatches (l : Lookup) (m : JMember) : Bool :=
+  m.name == l.name && m.desc == l.sig &&
+  (match l.kind with
+   | "field" => m.kind == "field" && !m.isStatic && m.cls == l.cls
+   | "method" => !m.isStatic && ((m.kind == "ctor" && m.cls == l.cls) ||
+       (m.kind == "method" && (m.cls == l.cls || m.cls == "java/lang/Enum" || m.cls == "java/lang/Throwable")))
+   | "static" => m.kind == "method" && m.isStatic && m.cls == l.cls
+   | _ => false)
+
+def lookupOk (jc : JavaCfg) (d : Decl) (l : Lookup) : Bool :=
+  if l.kind == "class" then (javaClasses jc d).contains l.cls else (javaMembers jc d).any (memberMatches l)
 
 /-! ## domain clauses (one per known finding of C07; named, decidable) -/
 
@@ -274,8 +317,15 @@ def noJavaBaseRecord (d : Decl) : Bool :=
   | .record u _ _ _ => !u.targets.contains "java"
   | _ => true
 
+/-- `staticOnlyOnCppInterfaces`: the front end accepts `static` methods only on interfaces implemented in C++ alone
+    (C05 rule), so a Java-implemented interface has instance methods only -/
+def staticOnlyOnCppInterfaces : Decl → Bool
+  | .interface u ms => !u.targets.contains "java" || ms.all (fun m => !m.isStatic)
+  | _ => true
+
 def domViolations (jc : JavaCfg) (c : JniCfg) (d : Decl) : List String :=
   (if jniClassNameIsJavaName jc c d then [] else ["jniClassNameIsJavaName"]) ++
-  (if noJavaBaseRecord d then [] else ["noJavaBaseRecord"])
+  (if noJavaBaseRecord d then [] else ["noJavaBaseRecord"]) ++
+  (if staticOnlyOnCppInterfaces d then [] else ["staticOnlyOnCppInterfaces"])
 
 end Pydjinni.Gen
